@@ -194,3 +194,103 @@ Definition join_inner (p i : str) : str := p ++ cDOLLAR :: i.
 
 Definition get_simple_name (s : str) : str :=
   match rsplit_once cSLASH s with Some (_, i) => i | None => s end.
+
+(* ================================================================== *)
+(* Round 4: the remaining public helpers of the anchored files         *)
+
+(* ---- MethodDescriptorSlice::get_arguments_size (descriptor.rs) ----
+   1 (the implicit `this`) + the slots of the parameters, `D`/`J` counting 2; the sum is kept in an `u8`
+   with `checked_add`, so more than 255 is an error.  The function does NOT validate: it skips `[`s,
+   takes the next character whatever it is, and skips to the next `;` after an `L`. *)
+
+(* `while chars.next_if_eq(&'[').is_some() {}` *)
+Fixpoint skip_brackets (s : str) : str :=
+  match s with
+  | c :: s' => if N.eqb c cLBRACK then skip_brackets s' else s
+  | [] => []
+  end.
+
+(* `size.checked_add(n)` on u8 *)
+Definition add_u8 (size n : N) : res N := if N.leb (size + n) 255 then Ok (size + n) else Err.
+
+Fixpoint args_loop (fuel : nat) (s : str) (size : N) : res N :=
+  match fuel with
+  | O => Err
+  | S f =>
+      match s with
+      | [] => Err                                   (* `chars.next()` is None *)
+      | c :: s' =>
+          if N.eqb c cRPAR then Ok size
+          else if N.eqb c cD || N.eqb c cJ then
+            match add_u8 size 2 with Ok z => args_loop f s' z | Err => Err end
+          else
+            match skip_brackets s with
+            | [] => Err
+            | ch :: r =>
+                if N.eqb ch cL then
+                  match take_until_semi r with
+                  | Err => Err
+                  | Ok (_, r') => match add_u8 size 1 with Ok z => args_loop f r' z | Err => Err end
+                  end
+                else match add_u8 size 1 with Ok z => args_loop f r z | Err => Err end
+            end
+      end
+  end.
+
+Definition args_size (s : str) : res N :=
+  match s with
+  | c :: s' => if N.eqb c cLPAR then args_loop (S (length s')) s' 1 else Err
+  | [] => Err
+  end.
+
+(* slots a parsed parameter takes *)
+Definition slots (t : ty) : N := match t with TD | TJ => 2 | _ => 1 end.
+Definition sum_N (l : list N) : N := fold_right N.add 0 l.
+Definition args_slots (ps : list ty) : N := 1 + sum_N (map slots ps).
+
+(* ---- ClassName <-> ArrClassName / ObjClassName (class.rs) ---- *)
+
+Definition is_array_name (s : str) : bool := starts_with [cLBRACK] s.     (* ClassNameSlice::is_array *)
+(* as_arr_and_obj / into_arr_and_obj: Ok(the same string as array class name) or Err(the same as object class name) *)
+Definition as_arr (s : str) : option str := if is_array_name s then Some s else None.
+Definition as_obj (s : str) : option str := if is_array_name s then None else Some s.
+
+(* ArrClassNameSlice::dimension: `take_while(== '[').count() as u8`, then `assert_ne!(dimension, 0)` (Err = panic) *)
+Fixpoint count_leading (s : str) : N :=
+  match s with
+  | c :: s' => if N.eqb c cLBRACK then 1 + count_leading s' else 0
+  | [] => 0
+  end.
+Definition arr_dimension (s : str) : res N :=
+  let d := N.modulo (count_leading s) 256 in if N.eqb d 0 then Err else Ok d.
+
+(* FieldDescriptor::from_obj_class / from_arr_class / from_class *)
+Definition desc_of_obj_class (n : str) : str := cL :: n ++ [cSEMI].
+Definition desc_of_class (s : str) : str := if is_array_name s then s else desc_of_obj_class s.
+
+(* get_inner_class_parent / get_inner_class_name *)
+Definition inner_parent (s : str) : option str := match split_inner s with Some (p, _) => Some p | None => None end.
+Definition inner_name (s : str) : option str := match split_inner s with Some (_, i) => Some i | None => None end.
+
+(* make_display!: `inner.as_str()` fails on a string holding a surrogate code point, then fmt returns Err *)
+Definition is_surrogate (c : N) : bool := N.leb 55296 c && N.leb c 57343.
+Definition display (s : str) : res str := if forallb (fun c => negb (is_surrogate c)) s then Ok s else Err.
+
+(* ---- the checked newtypes of make_string_str_like!: which predicate guards which type ---- *)
+Inductive guard := GAlways | GClassName | GArrClassName | GObjClassName | GUnqualified | GMethodName.
+
+Definition guard_pred (g : guard) (s : str) : bool :=
+  match g with
+  | GAlways => true
+  | GClassName => is_valid_class_name s
+  | GArrClassName => is_valid_arr_class_name s
+  | GObjClassName => is_valid_obj_class_name s
+  | GUnqualified => is_valid_unqualified_name s
+  | GMethodName => is_valid_method_name s
+  end.
+
+Fixpoint lookup_guard (name : str) (tbl : list (str * guard)) : option guard :=
+  match tbl with
+  | [] => None
+  | (n, g) :: t => if str_eqb n name then Some g else lookup_guard name t
+  end.
